@@ -57,6 +57,16 @@ func newMsgTable(env *csEnv) *msgTable {
 
 func (mt *msgTable) nameBlock(id []byte, name string) { mt.blkNames[hex.EncodeToString(id)] = name }
 
+// namePS names a part-set hash (proposals and block parts carry it, not the block id).
+func (mt *msgTable) namePS(hash []byte, name string) { mt.blkNames["ps:"+hex.EncodeToString(hash)] = name }
+
+func (mt *msgTable) psName(hash []byte) string {
+	if n, ok := mt.blkNames["ps:"+hex.EncodeToString(hash)]; ok {
+		return n
+	}
+	return shortHex(hash)
+}
+
 func (mt *msgTable) blockName(id []byte) string {
 	if id == nil {
 		return "nil"
@@ -85,8 +95,8 @@ func (mt *msgTable) intern(proto uint16, b []byte) int {
 		case *ProposalMessage:
 			m.Kind, m.Height, m.Round = "proposal", x.Height, x.Round
 			m.Signer = mt.signerIndex(x.address())
-			m.Block = shortHex(x.BlockPartSetID.Hash)
-			m.Desc = fmt.Sprintf("proposal{V%d h%d r%d ps=%s pol=%d}", m.Signer, x.Height, x.Round, shortHex(x.BlockPartSetID.Hash), x.POLRound)
+			m.Block = mt.psName(x.BlockPartSetID.Hash)
+			m.Desc = fmt.Sprintf("proposal{V%d h%d r%d %s pol=%d}", m.Signer, x.Height, x.Round, m.Block, x.POLRound)
 		case *BlockPartMessage:
 			m.Kind, m.Height = "part", x.Height
 			if p, err := NewPart(x.BlockPart); err == nil {
@@ -104,9 +114,9 @@ func (mt *msgTable) intern(proto uint16, b []byte) int {
 				if !found {
 					mt.psIDs = append(mt.psIDs, h)
 				}
-				m.Block = shortHex(h)
+				m.Block = mt.psName(h)
 			}
-			m.Desc = fmt.Sprintf("part{h%d i%d ps=%s}", x.Height, x.Index, m.Block)
+			m.Desc = fmt.Sprintf("part{h%d i%d %s}", x.Height, x.Index, m.Block)
 		case *VoteMessage:
 			if x.Type == VoteTypePrevote {
 				m.Kind = "prevote"
